@@ -66,6 +66,10 @@ type Config struct {
 	PCTSteps uint64 // horizon over which PCT change points are spread
 	Starve   []Starve
 	MaxSteps uint64
+	// SecondChance: when the step budget trips, switch to the fair scheduler and
+	// grant this many further steps before reporting (liveness is demanded only
+	// once adversarial scheduling stops)
+	SecondChance uint64
 	Clock    int // 0 monotone, 1 constant, 2 jumping
 	Replay   []uint32
 	Record   bool
@@ -105,6 +109,7 @@ type Stats struct {
 	MutexBlock uint64
 	CondWait   uint64
 	SimNanos   int64
+	SecondChances uint64
 }
 
 // Debug prints task life-cycle events to stderr.
@@ -474,6 +479,11 @@ func (t *Task) effWeight() float64 {
 //go:norace
 func (s *Sim) step() {
 	s.steps++
+	if s.steps > s.cfg.MaxSteps && !s.aborted && !s.fair && s.cfg.SecondChance > 0 {
+		s.fair = true
+		s.cfg.MaxSteps += s.cfg.SecondChance
+		s.Stats.SecondChances++
+	}
 	if s.steps > s.cfg.MaxSteps && !s.aborted {
 		s.abort(&Outcome{Kind: "budget", Detail: fmt.Sprintf("run exceeded %d scheduling steps", s.cfg.MaxSteps), Task: s.cur.Name, Tag: s.cur.Tag})
 	}
